@@ -14,6 +14,28 @@ Proof.
   intros x I. apply H. now right.
 Qed.
 
+Lemma dedup_In m ms : forall seen, In m (dedup seen ms) <-> In m ms /\ ~ In m seen.
+Proof.
+  induction ms as [|a r IH]; intro seen; cbn [dedup].
+  - split; [intros []|intros [[] _]].
+  - destruct (mem a seen) eqn:M.
+    + rewrite IH. apply mem_In in M. split.
+      * intros [I N]. split; [now right|exact N].
+      * intros [[<-|I] N]; [contradiction|now split].
+    + assert (Na : ~ In a seen) by (intro I; apply mem_In in I; congruence).
+      cbn [In]. rewrite IH. split.
+      * intros [<-|[I N]]; [split; [now left|exact Na]|]. split; [now right|]. intro I'. apply N. now right.
+      * intros [[<-|I] N]; [now left|]. destruct (list_eq_dec ascii_dec a m) as [<-|D]; [now left|].
+        right. split; [exact I|]. intros [E|I']; [contradiction|contradiction].
+Qed.
+
+Lemma dedup_NoDup ms : forall seen, NoDup (dedup seen ms).
+Proof.
+  induction ms as [|a r IH]; intro seen; cbn [dedup]; [constructor|].
+  destruct (mem a seen); [apply IH|]. constructor; [|apply IH].
+  intro I. apply dedup_In in I. destruct I as [_ N]. apply N. now left.
+Qed.
+
 Section LogParseP.
   Variable filt : Type.
   Variable default_filter : filt.
@@ -179,8 +201,9 @@ Section LogParseP.
     exists m v, In m ms /\ jlookup m kvs = Some (JString v) /\ x = MLog (json_timestamp rfc3339 kvs) m v.
   Proof.
     unfold LogParse.json_records. rewrite in_flat_map. split.
-    - intros [m [Im I]]. destruct (jlookup m kvs) as [[v|r|]|] eqn:L; [|destruct I|destruct I|destruct I]. destruct I as [<-|[]]. now exists m, v.
-    - intros [m [v [Im [L ->]]]]. exists m. split; [exact Im|]. rewrite L. now left.
+    - intros [m [Im I]]. apply dedup_In in Im. destruct Im as [Im _].
+      destruct (jlookup m kvs) as [[v|r|]|] eqn:L; [|destruct I|destruct I|destruct I]. destruct I as [<-|[]]. now exists m, v.
+    - intros [m [v [Im [L ->]]]]. exists m. split; [apply dedup_In; split; [exact Im|intros []]|]. rewrite L. now left.
   Qed.
 
   Lemma json_found_exact ms lines x :
@@ -197,11 +220,12 @@ Section LogParseP.
       + unfold LogParse.spec_json_line. rewrite D. apply json_records_exact. now exists m, v.
   Qed.
 
-  (* with no tracked name listed twice, one JSON line never yields the same record twice *)
-  Lemma json_records_nodup ms kvs : NoDup ms -> NoDup (json_records ms kvs).
+  (* one JSON line never yields the same record twice, whatever the list of tracked names *)
+  Lemma json_records_nodup ms kvs : NoDup (json_records ms kvs).
   Proof.
-    intro ND. induction ND as [|m r Hm Hr IH]; [constructor|].
-    unfold LogParse.json_records in *. cbn [flat_map].
+    unfold LogParse.json_records. generalize (dedup_NoDup ms []). generalize (dedup [] ms). clear ms.
+    intros ms ND. induction ND as [|m r Hm Hr IH]; [constructor|].
+    cbn [flat_map].
     destruct (jlookup m kvs) as [[v|q|]|]; try exact IH. cbn [app]. constructor; [|exact IH].
     intro I. apply in_flat_map in I. destruct I as [m' [Im' I]].
     destruct (jlookup m' kvs) as [[v'|q'|]|]; [|destruct I|destruct I|destruct I]. destruct I as [E|[]]. injection E as -> _. contradiction.
